@@ -14,6 +14,49 @@ ASSUMPTIONS = ['C and Python operator precedence/associativity as tabulated in s
 
 
 def run(F, rep):
+    # ------------------------------------------------------------------ F: a (re)loaded profile is complete
+    rep.rule('C03.F1', 'GeneratorProfileImpl::loadProfile assigns every flag and string of the profile for C and for Python, so that setProfile() yields the same profile whatever the object held before '
+                       '(a flag that survives a reload is combined with the reloaded strings, e.g. a power operator with the function name `pow`)')
+    from engines import is_write_context
+    prec = F.record('GeneratorProfile::GeneratorProfileImpl')
+    lps = [g for g in F.funcs.values() if g.name == 'loadProfile' and (g.cls or '').endswith('GeneratorProfileImpl')]
+    if len(lps) != 1:
+        raise AnalysisBroken('GeneratorProfileImpl::loadProfile vanished')
+    lp = lps[0]
+    allp = [e['n'] for e in F.enum('libcellml::GeneratorProfile::Profile')['enumerators']]
+    written = {p_: set() for p_ in allp}
+    for n_ in lp.walk():
+        if n_.get('k') == 'Member' and n_.get('field') and is_write_context(lp, n_):
+            sw_, labels_ = case_labels_reaching(lp, n_)
+            ps = [label_enum(l) for l in labels_]
+            if not ps:
+                for cnd, br, st in enclosing_conditions(lp, n_):
+                    en = [x['n'] for x in walk(cnd) if x.get('k') == 'Ref' and x.get('dk') == 'enumc' and x['n'] in allp]
+                    if len(en) == 1 and '==' in render(cnd):
+                        ps = en if br == 'then' else [x for x in allp if x not in en]
+                        break
+            for p_ in (ps or allp):
+                written[p_].add(n_['n'])
+    F1_EXEMPT = {'mPiecewiseIfString': 'only used when hasConditionalOperator is false; loadProfile sets it to true for both profiles', 'mPiecewiseElseString': 'only used when hasConditionalOperator is false; loadProfile sets it to true for both profiles',
+                 'mProfile': 'the profile selector itself, assigned by the caller', 'mProfileContentsString': 'derived text'}
+    f1_failed = False
+    nf = 0
+    for fld in prec['fields']:
+        for p_ in allp:
+            nf += 1
+            key = '%s|%s' % (p_, fld['n'])
+            if fld['n'] in written[p_]:
+                rep.ok('C03.F1', key, None, 'assigned')
+            elif fld['n'] in F1_EXEMPT:
+                rep.exempt('C03.F1', key, F1_EXEMPT[fld['n']])
+            else:
+                f1_failed = True
+                rep.fail('C03.F1', key, lp.where(), 'loadProfile does not assign %s for profile %s: after setProfile(%s) the member keeps whatever the object held before' % (fld['n'], p_, p_))
+    if nf < 300:
+        raise AnalysisBroken('C03.F1: only %d (profile, member) pairs (370+ confirmed)' % nf)
+    if f1_failed:
+        rep.note('C03.P1 and the other rules were not evaluated: the profile read from loadProfile is incomplete (C03.F1)')
+        return
     # ------------------------------------------------------------------ P
     rep.rule('C03.P1', 'for every profile, parent operator, side and child class: if the generator adds no parentheses, the root operator of the child\'s emitted text does not need them under the target language\'s precedence rules (and no `--` is produced in C)')
     n = 0
